@@ -82,7 +82,7 @@ def gen(seed, thorough=False):
     big = 0
     r = rng.random()
     if r < 0.06:
-        big = rng.choice([50, 200, 400])
+        big = rng.choice([50, 200, 400, 400, 1500, 3000])
     world = make_world(rng, big)
     m = W.Model(world)
     disc = m.discover()
